@@ -96,6 +96,75 @@ def borderline(cd, w_max, f):
     return False
 
 
+def custom_resolution_clause(ctx, prefix, cd, circ, w_max):
+    """the same pipeline by hand with a NON-default frequency resolution: frequency_components(circuit, w_max, r) and
+    transform(circuit, ws, r) must agree on what coincides - every source (harmonic) active on exactly one line"""
+    from CircuitCalculator.Circuit.circuit import frequency_components, transform
+    from CircuitCalculator.Network.NodalAnalysis.bias_point_analysis import nodal_analysis_bias_point_solver
+    raw = []
+    for c in cd['components']:
+        f = circdesc.source_frequency(c)
+        if f is not None:
+            raw.append(f)
+        if circdesc.is_periodic(c):
+            k = 0
+            while k * c['args']['w'] <= w_max:
+                raw.append(k * c['args']['w']); k += 1
+    raw = sorted(set(raw))
+    for r in (1e-5, 0.25):
+        if any(circdesc.is_periodic(c) and c['args']['w'] < 4 * r for c in cd['components']):
+            ctx.count('custom_resolution_set_aside_fundamental_below_resolution')
+            continue
+        clusters = []
+        for f in raw:
+            if not clusters or f - clusters[-1][0] > r:
+                clusters.append([f, f])
+            else:
+                clusters[-1][1] = f
+        ambiguous = any(hi - lo > 0.9 * r for lo, hi in clusters) or any(b[0] - a[1] < 1.1 * r for a, b in zip(clusters, clusters[1:]))
+        if ambiguous:
+            ctx.count('custom_resolution_set_aside_ambiguous_spacing')
+            continue
+        ws = call(frequency_components, circ, w_max, r)
+        if raised(ws):
+            ctx.violation(f'{prefix}/custom-resolution/frequency-components-raised/{ws.key}', ws.text, {'w_resolution': r})
+            continue
+        ws = [float(x) for x in ws]
+        exp = [lo for lo, hi in clusters]
+        okl = True
+        for f in exp:
+            if not any(abs(w - f) <= 1e-9 * max(1.0, f) for w in ws) and not borderline(cd, w_max, f):
+                ctx.violation(f'{prefix}/custom-resolution/frequency-list/missing', f'w_resolution={r!r}: expected line {f!r} not in {ws!r}', {'w_resolution': r})
+                okl = False
+        for w in ws:
+            if not any(abs(w - f) <= 1e-9 * max(1.0, f) for f in exp) and not borderline(cd, w_max, w):
+                ctx.violation(f'{prefix}/custom-resolution/frequency-list/unexpected', f'w_resolution={r!r}: line {w!r} analysed, expected lines {exp!r}', {'w_resolution': r})
+                okl = False
+        ctx.count('custom_resolution_lists_checked')
+        if not okl:
+            continue
+        nets = call(transform, circ, ws, r)
+        if raised(nets) or len(nets) != len(ws):
+            ctx.violation(f'{prefix}/custom-resolution/transform-raised-or-wrong-length', getattr(nets, 'text', f'{len(nets)} networks for {len(ws)} frequencies'), {'w_resolution': r})
+            continue
+        rds = [netsolve.reference_from_ref(circdesc.ref_network(cd, w, r), {c['id']: c['ctor'] for c in cd['components']}) for w in ws]
+        # natural scale of the whole analysis (a line on which a waveform has no harmonic is not judged relative to itself)
+        S_phi = max([rd['s_phi'] for rd in rds if rd is not None] + [0.0])
+        S_i = max([rd['s_i'] for rd in rds if rd is not None] + [0.0])
+        for w, net, rd in zip(ws, nets, rds):
+            if rd is None or rd['kappa'] > 1e7:
+                ctx.count('custom_resolution_set_aside_ill_posed_or_conditioned')
+                continue
+            rd['s_phi'], rd['s_i'] = S_phi, S_i
+            sol = call(nodal_analysis_bias_point_solver, net)
+            if raised(sol):
+                ctx.violation(f'{prefix}/custom-resolution/solver-raised/{sol.key}', sol.text, {'w_resolution': r, 'w': w})
+                continue
+            netsolve.compare(rd, {'phi': sol.get_potential, 'V': sol.get_voltage, 'I': sol.get_current}, ctx,
+                             f'{prefix}/custom-resolution/{"fine" if r < 1e-3 else "coarse"}')
+            ctx.count('custom_resolution_lines_compared')
+
+
 def judge(case, ctx, prefix='C09'):
     from CircuitCalculator.Circuit.circuit import frequency_components
     from CircuitCalculator.Circuit.solution import TimeDomainSolution, FrequencyDomainSolution
@@ -147,6 +216,8 @@ def judge(case, ctx, prefix='C09'):
     ctx.count('frequency_lists_checked')
     if not ok:
         return
+    if st in ('near-coincidence', 'no-periodic', 'unrelated'):
+        custom_resolution_clause(ctx, prefix, cd, circ, w_max)
     # harmonics within 4 ulp of w_max may legitimately be absent: judge the rest against what is actually analysed
     exp = [f for f in exp if any(abs(w - f) <= W_RES for w in ws)]
     comps = [c for c in cd['components'] if c['ctor'] != 'ground']
@@ -293,7 +364,8 @@ def guards(m, tier):
     r = []
     q = tier == 'quick'
     for k, need in (('circuits_judged', 200), ('stratum_rounding-coincidence', 30), ('stratum_exact-coincidence', 30), ('stratum_near-coincidence', 30), ('spectral_lines_compared', 3000),
-                    ('time_functions_compared', 2000), ('additivity_checked', 150), ('periodic_waveforms_checked', 40)):
+                    ('time_functions_compared', 2000), ('additivity_checked', 150), ('periodic_waveforms_checked', 40),
+                    ('custom_resolution_lines_compared', 300)):
         need = need if q else need * 12
         if c.get(k, 0) < need:
             r.append(f'{k} = {c.get(k, 0)} (<{need})')
